@@ -36,7 +36,9 @@ TEXTS_Q = ['', 'a', 'b', 'A', 'B', 'ab', 'aB', 'Ab', 'abc', 'abd', 'ABC', 'x', '
            '10', '9', '09', '1e3', '1000', '1.5', '1.50', 'nan', 'NaN', 'inf', '-inf', 'Infinity', 'TRUE', 'true',
            '0', '-5', '1_0', ' 7 ', 'a1', 'a10', 'a2', '#N/A?',
            # spellings only Python's int() / float() read as numbers: plain texts for a spreadsheet
-           '1_0', '1_000', '\u0663', '\uff11\uff10', 'infinity', '1__0', '0x10', '1e1_0']
+           '1_0', '1_000', '\u0663', '\uff11\uff10', 'infinity', '1__0', '0x10', '1e1_0',
+           # whole numbers of more digits than a double holds, written as texts (account numbers, ids): two of them that differ in the last digit differ
+           '12345678901234567890', '12345678901234567891', '9007199254740993', '9007199254740992', '0012345678901234567890', '-12345678901234567890', '-12345678901234567891']
 D0 = dt.datetime(2024, 1, 1)
 DATES_Q = [D0, dt.date(2024, 1, 1), D0 + dt.timedelta(hours=1, minutes=10, seconds=10), dt.datetime(2024, 1, 1, 23, 59, 59),
            dt.datetime(2024, 1, 2), dt.date(2024, 1, 2), dt.datetime(2023, 12, 31, 23, 59, 59), dt.date(2023, 12, 31),
@@ -107,6 +109,7 @@ def _as_bool(out):
     return out.value if out.ok and isinstance(out.value, bool) else None
 
 
+_INTTXT = re.compile(r'\s*[+-]?\d+\s*', re.ASCII)
 _NUMTXT = re.compile(r'\s*[+-]?(\d+\.?\d*|\.\d+)([eE][+-]?\d+)?\s*', re.ASCII)
 
 
@@ -127,6 +130,10 @@ def check_pair_laws(r, kind, a, b, res_ab, res_ba, case):
             bad.append('>= is not the negation of <')
         if res_ba is not None and res_ba.get('>') is not None and res_ab['<'] != res_ba['>']:
             bad.append('a<b differs from b>a')
+        if kind == 'text' and _INTTXT.fullmatch(a) and _INTTXT.fullmatch(b):
+            # two texts that spell whole numbers compare as those whole numbers, however many digits they have
+            if res_ab['='] != (int(a) == int(b)) or res_ab['<'] != (int(a) < int(b)):
+                bad.append('two texts spelling whole numbers do not compare as these numbers')
         if kind == 'text' and res_ab['='] and a.casefold() != b.casefold() and not (_NUMTXT.fullmatch(a) and _NUMTXT.fullmatch(b)):
             # two numeric texts may be the same number in two spellings; a text that is no number equals only itself
             bad.append('two different texts, at least one of them no number, compare equal')
